@@ -74,7 +74,7 @@ Fixpoint fq_spec (fuel : nat) (rest : list byte) (line byte_ : nat) : list fq_si
                   else
                     let sepb := hd LF r2 in
                     if negb (sepb =? PLUS) then [QErr (EInvalidSep sepb (line + 2) (err_id h)) line byte_]
-                    else if (length s =? length q) || (length (trim_cr s) =? length (trim_cr q)) then
+                    else if length (trim_cr s) =? length (trim_cr q) then
                       QRec (mkFqItem (trim_cr (tl h)) (trim_cr s) (trim_cr q) line byte_)
                       :: (if last then []
                           else fq_spec f r4 (line + 4)
